@@ -15,7 +15,7 @@ from symex import show
 EXPLANATION = __doc__
 TRUSTED = ["rustc / extractor", "induction over the stream: per-byte inverse + equal state => stream inverse for any chunking"]
 NOT_DECIDED = []
-FLOORS = {"step": 10, "traversal": 2, "state-discipline": 2, "state-writers": 4, "initial-state": 4, "wiring": 4}
+FLOORS = {"entry-points": 24, "step": 10, "traversal": 2, "state-discipline": 2, "state-writers": 4, "initial-state": 4, "wiring": 4}
 MOD = "vanilla_header"
 KEYLEN = 40
 
@@ -70,6 +70,12 @@ def key_field(ctx, half):
 
 
 def check(ctx, rep):
+    # "the receiver recovers the sender's headers": every entry point of this expansion that
+    # feeds bytes to the cipher (typed helpers, Read/Write wrappers, facade) must hand the raw
+    # operation exactly the bytes of the header, once - the obligations C11 decides, filed here
+    # for this expansion's functions
+    from rules import c11
+    c11.check(ctx, util.Refile(rep, "entry-points", None, lambda fn: fn.startswith("vanilla_header::")))
     enc_fn = MOD + "::encrypt::encrypt"
     dec_fn = MOD + "::decrypt::decrypt"
     eh = MOD + "::encrypt::EncrypterHalf"
